@@ -240,3 +240,63 @@ def run_coneqp(I, entry="coneqp", kktsolver=None, storage="dense", initvals=None
     info = {"status": None if res is None else res["status"], "exc": None if exc is None else repr(exc),
             "nf": rec.nf, "ns": rec.ns, "det": det, "res": res, "rec": rec}
     return trace, info
+
+
+# ---------------------------------------------------------------------------
+# nonlinear solvers
+# ---------------------------------------------------------------------------
+def run_nl(case, entry="cp", kktsolver=None, storage="dense", options=None, fault=None, check_w=None, truth=True,
+           sparse_F=False):
+    """case: dict with 'fam' (nlfam object), 'lin' (planted instance used for G,h,dims,A,b; may be None), 'c' (cpl only)
+    entry: 'cp' | 'cpl' | 'gp'"""
+    from harness import nlfam
+    from cvxopt import solvers
+    fam = case["fam"]
+    fam.calls = []
+    I = case.get("lin")
+    n = fam.n
+    o = eff_options(options)
+    kw = {"options": dict(options or {}, show_progress=False)}
+    if kktsolver is not None:
+        kw["kktsolver"] = kktsolver
+    if I is not None:
+        c_, G, h, dims, A, b, _ = problem(I, storage)
+    else:
+        G, h, dims = matrix(0.0, (0, n)), matrix(0.0, (0, 1)), {"l": 0, "q": [], "s": []}
+        A, b = matrix(0.0, (0, n)), matrix(0.0, (0, 1))
+        if storage == "sparse":
+            G, A = sparse(G), sparse(A)
+    if entry == "cpl":
+        c = vec(case["c"])
+        F = fam.make_F(first=case.get("first", 1), sparse_out=sparse_F)
+        fn, args = solvers.cpl, (c, F, G, h, dims, A, b)
+        mode, first = "cpl", case.get("first", 1)
+    elif entry == "cp":
+        c = matrix(0.0, (n, 1))
+        F = fam.make_F(first=0, sparse_out=sparse_F)
+        fn, args = solvers.cp, (F, G, h, dims, A, b)
+        mode, first = "cp", 0
+    else:
+        c = matrix(0.0, (n, 1))
+        Fm = matrix([[float(fam.Fm[r][j]) for r in range(sum(fam.K))] for j in range(n)])
+        g = vec(fam.g)
+        if storage == "sparse":
+            Fm = sparse(Fm)
+        fn, args = solvers.gp, (list(fam.K), Fm, g, G, h, A, b)
+        mode, first = "cp", 0
+    events, res, exc, rec = solverrec.record(entry, fn, args, kw, o["maxiters"], bothstarts=False,
+                                             truth=("solvable" if truth else "none"), fault=fault, check_w=check_w)
+    cert, det = {"_": True}, {}
+    iters = rec.raw_iters[-1]["iters"] if rec.raw_iters else 0
+    if res is not None:
+        pr = alpha.ConeProblem(c, G, h, dims, A, b)
+        try:
+            cert, det = alpha.cpl_cert(fam, mode, c, pr, res, o, first)
+        except Exception as e:
+            cert, det = {"_": True}, {"alpha_error": repr(e)}
+        cert["_"] = True
+    trace = solverrec.finish_trace(events, res, exc, cert, iters=iters)
+    info = {"status": None if res is None else res["status"], "exc": None if exc is None else repr(exc),
+            "nf": rec.nf, "ns": rec.ns, "det": det, "res": res, "rec": rec, "refused": getattr(fam, "refused", 0),
+            "ls": rec.ls}
+    return trace, info
